@@ -232,13 +232,26 @@ async def serial_pass(ctx, tag: str, lines: list[str], mode: str):
         orig(pkt)
 
     proto.pkt_received = rec
+    # a dongle that is silent during the whole start-up signature poll (the transport then connects without an id): the echo of
+    # that poll turns up late, in the same read as the first frames of the stream
+    late_sig = bool(plan.decide("late_signature_echo", lambda r: r.random() < 0.12, False))
+    polls: list[bytes] = []
+    if late_sig:
+        hub.echo_policy = lambda ser_, frame, nth: (polls.append(frame) or [])
+        hub.count("signature_echo_after_the_poll_gave_up")
     tr = T.PortTransport(ser, proto, loop=loop)
     await proto.wait_for_connection_made(timeout=3)
+    hub.echo_policy = None
     await asyncio.sleep(0.2)
     got.clear()
     msgs.clear()
     n_exc0 = len(ctx.loop_excs)
     stream = b"".join(s.encode("latin-1") + b"\r\n" for s in lines)
+    if late_sig and polls:
+        first = lines[0].encode("latin-1") + b"\r\n" if lines else b""
+        stream = first + b"000 " + polls[0] + b"\r\n" + stream[len(first):]
+        if mode == "aligned":
+            lines = lines[:1] + ["000 " + polls[0].decode("latin-1")] + lines[1:]
     if mode == "aligned":
         hub.split_mode = "all"
         for s in lines:
@@ -262,6 +275,8 @@ async def serial_pass(ctx, tag: str, lines: list[str], mode: str):
     new_excs = ctx.loop_excs[n_exc0:]
     tr.close()
     await asyncio.sleep(0.1)
+    if late_sig:  # (the dongle's own signature frame is not part of the offered stream)
+        got = [g for g in got if " 7FFF " not in g[1] or GID not in g[1][:20]]
     return got, msgs, new_excs, bytes(ser.rx)
 
 
